@@ -1401,6 +1401,8 @@ def _run(ctx):
     bivlifegen.hook(ctx)     # Gen_bivlife.v + Props/C14_biv.v (C14_bridge_*): never stops the rest of the check
     from .. import vineserialgen
     vineserialgen.hook(ctx)  # Gen_vineserial.v + Props/C14_vine.v (vine serialisation generated from the AST): never stops the rest
+    from .. import serialrestgen
+    serialrestgen.hook(ctx)  # Gen_serialrest.v + Props/C14_rest.v (Edge.from_dict, VineCopula.to_dict / from_dict, save / load pairs): never stops the rest
     E = Evaluator()
     pend = Pending(ctx, E)
     viol = Viols(ctx)
